@@ -227,3 +227,51 @@ def run(ck, prog):
     _run_pre_clamp(ck, prog)
     from sa import clamp
     clamp.run_rule(ck, prog, set(DIMENSION_FILES))
+
+
+# ------------------------------------------------------------------ generic: an index variable of one range addresses one buffer with one stride
+_run_pre_stride = run
+
+
+def run(ck, prog):
+    _run_pre_stride(ck, prog)
+    from sa import stride
+    stride.run_rule(ck, prog, set(DIMENSION_FILES))
+
+
+# ------------------------------------------------------------------ PCA::fit does not reach the one-pass variance (known finding of C03)
+_run_pre_onepass = run
+
+
+def pca_avoids_one_pass_variance(ck, prog):
+    """MatrixStats::{var, std} and BaseVector::{var, std} use the one-pass E[x^2] - E[x]^2 form (recorded finding of C03:
+    cancellation when |mean| >> spread).  PCA centres its data and takes standard deviations from the diagonal of the centred
+    covariance; routing the correlation scaling through std() makes diag(sd) * P non-orthonormal for columns on a large
+    baseline.  Rule: nothing reachable from PCA::fit is one of those four functions."""
+    from sa import flow
+    rule, inst = "E2-reach", "PCA::fit does not reach the one-pass var / std (C03's recorded finding)"
+    root = "decomposition::pca::PCA::<T, M>::fit"
+    if root not in prog.bodies:
+        ck.violation(rule, inst, root, "", expected="anchor exists", found="anchor vanished")
+        return
+    cg = flow.CallGraph(prog)
+    reach = cg.reachable([root])
+    bad = sorted(f for f in reach if f.endswith(("MatrixStats::var", "MatrixStats::std", "BaseVector::var", "BaseVector::std")))
+    b = prog.bodies[root]
+    direct = [(bb, t["f"]["path"]) for bb, t in b.calls() if t.get("f") and t["f"]["path"].endswith(("MatrixStats::var", "MatrixStats::std", "BaseVector::var", "BaseVector::std"))]
+    if bad or direct:
+        site = b.where(direct[0][0]) if direct else f"{b.loc[0]}:{b.loc[1]}"
+        nm = direct[0][1] if direct else bad[0]
+        ck.violation(rule, inst, root, site, expected="standard deviations come from the centred covariance (sqrt of its diagonal)",
+                     found=f"{nm} is reachable from PCA::fit: one-pass variance, wrong for columns whose mean is large relative to their spread",
+                     path=cg.path_to(root, bad[0]) if bad else None)
+    else:
+        ck.ok(rule, inst, root, f"{b.loc[0]}:{b.loc[1]}", f"{len(reach)} functions reachable, none is a one-pass variance routine")
+
+
+def run(ck, prog):
+    _run_pre_onepass(ck, prog)
+    pca_avoids_one_pass_variance(ck, prog)
+
+
+EXPLANATION += " PCA::fit reaches neither MatrixStats::{var, std} nor BaseVector::{var, std} (the one-pass variance recorded under C03)."
